@@ -132,6 +132,32 @@ theorem C09_key_unordered_refuted :
     MtimeFresh h ∧ run init h = specRun FS.empty h ∧ runK keyUnordered init h ≠ specRun FS.empty h := by
   refine ⟨by decide, by decide, by decide⟩
 
+/-- The real key does not depend on the order in which the members are handed to the constructor (nor, a
+    fortiori, on a set's iteration order): paths AND mtimes are taken from the same sorted member list. -/
+theorem C09_key_constructor_order_independent (fs : FS) (cls : Cls) (given given' : List Path)
+    (h : given.Perm given') : fileSetKey fs cls given = fileSetKey fs cls given' := by
+  unfold fileSetKey members
+  rw [sortNat_perm h]
+
+theorem C09_key_reversed_members (fs : FS) (cls : Cls) (given : List Path) :
+    fileSetKey fs cls given.reverse = fileSetKey fs cls given :=
+  C09_key_constructor_order_independent fs cls _ _ (List.reverse_perm given)
+
+/-- (e) mtimes collected in the iteration order of the raw member set, an environment parameter: session 0
+    iterates (member 0, member 1), session 1 (member 1, member 0).  The two members are swapped by renames
+    between the hashes (every member gets new content AND a new mtime — not the D7 situation, the history is
+    `MtimeFresh`): session 1 computes exactly session 0's old key and is served the stale entry.  With the same
+    order in every process the same history is answered correctly: the answer depends on the environment. -/
+theorem C09_key_iterorder_refuted :
+    let h : List Op := [.write 0 1 5, .write 1 2 9, .hash 0 3 [0, 1], .rename 0 2, .rename 1 0, .rename 2 1, .hash 1 3 [0, 1]]
+    let mixed : Option Sess → KeyFn := fun s => if s = some 1 then keyIterOrder [1, 0] else keyIterOrder [0, 1]
+    MtimeFresh h ∧ run init h = specRun FS.empty h
+    ∧ specRun FS.empty h = [none, none, some [1, 2], none, none, none, some [2, 1]]
+    ∧ runEnv mixed init h = [none, none, some [1, 2], none, none, none, some [1, 2]]
+    ∧ runEnv (fun _ => keyIterOrder [0, 1]) init h = specRun FS.empty h
+    ∧ runEnv (fun _ => keyIterOrder [1, 0]) init h = specRun FS.empty h := by
+  refine ⟨by decide, by decide, by decide, by decide, by decide, by decide⟩
+
 /-! ### the defect (D7) -/
 
 /-- WITNESS (known finding D7): write A with mtime t; hash; write B with the same mtime t; hash.
@@ -228,6 +254,10 @@ example : readAll ((FS.empty.set 0 (some (1, 5))).set 1 (some (2, 7)) |>.set 2 (
       = some [(1, 5), (2, 7), (3, 9)]
     ∧ readAll (((FS.empty.set 0 (some (1, 5))).set 1 (some (2, 7)) |>.set 2 (some (3, 9))).set ([0, 1, 2][1]) (some (4, 6))) [0, 1, 2]
       = some [(1, 5), (4, 6), (3, 9)] := by
+  refine ⟨by decide, by decide⟩
+
+/-- `C09_key_constructor_order_independent`: three members handed over in two different orders. -/
+example : [7, 5, 6].Perm [5, 6, 7] ∧ members [7, 5, 6] = [5, 6, 7] := by
   refine ⟨by decide, by decide⟩
 
 /-- `C09_multiproc` hypotheses are met by a history that is NOT fresh (it speaks about wrong answers too). -/
